@@ -32,9 +32,11 @@ Qed.
 
 (* Statements: what the renderer model writes for a statement list (Model/StRender.v, compared with write_to_string token
    for token on every run) is a well-formed spelling of that list, so the parser model reads it back as exactly the list it
-   was given -- assignments, calls with all parameter forms, IF / ELSIF / ELSE, FOR [BY], WHILE, REPEAT, EXIT, RETURN, nested
-   to any depth, empty loop and ELSIF bodies (written as an empty statement), expressions over all operators -- whatever the
-   size.  [rstmt] excludes only the recorded gap (a negative integer constant is written '- 5') and the [LfVar] node no
+   was given -- assignments, calls with all parameter forms, IF / ELSIF / ELSE, CASE (integer, subrange and name selectors,
+   groups without statements, ELSE), FOR [BY], WHILE, REPEAT, EXIT, RETURN, nested to any depth, empty loop and ELSIF bodies
+   (written as an empty statement), expressions over all operators -- whatever the size.  [rstmt] excludes only the
+   recorded gap (a negative integer constant or CASE selector bound is written '- 5'), a CASE group without selectors (no
+   text gives one) and the [LfVar] node no
    accepted text has; integer constants are below 2^128, the range of the syntax tree (printing in decimal and reading
    back is proved in Proofs/DecProofs.v). *)
 Theorem C10_statements_render_is_spelling : forall x l, Forall StRenderProofs.rstmt (x :: l) ->
@@ -59,3 +61,8 @@ Theorem C10_negative_constant_refuted :
   StInstance.parse_fb_tokens (StRenderProofs.render_fb [102%N] StRenderProofs.neg_witness)
   <> StInstance.OParsed StRenderProofs.neg_witness.
 Proof. exact StRenderProofs.render_negative_constant_refuted. Qed.
+
+(* ... and a negative CASE selector is written '- 5 :', which signed_integer does not read: the rendered text is rejected *)
+Theorem C10_negative_selector_refuted :
+  StInstance.parse_fb_tokens (StRenderProofs.render_fb [102%N] StRenderProofs.neg_sel_witness) = StInstance.ORejected.
+Proof. exact StRenderProofs.render_negative_selector_refuted. Qed.
